@@ -110,6 +110,12 @@ def corpus(tier):
                     reach={'bob': {'direct': 'fast', 'delay': 0.02, 'pierce': then == 'blackhole', 'pierce_delay': 20.0}},
                     stop={'transfer': 0, 'op': op, 'k': k, 'plus_iter': 0, 'fallback_at': 25.0},
                     ul_break={'after': 4096, 'requeue_delay': 0.3, 'then': then, 'then_delay': then_delay}))
+            for t in (1.0, 3.0, 6.0, 11.0, 15.0):
+                out.append(base_plan(
+                    transfers=[{'id': 0, 'dir': 'up', 'peer': 'bob', 'size': 200000, 'at': 0.0}],
+                    reach={'bob': {'direct': 'fast', 'delay': 0.02, 'pierce': then == 'blackhole', 'pierce_delay': 20.0}},
+                    stop={'transfer': 0, 'op': op, 'k': 99, 'plus_iter': 0, 'fallback_at': t},
+                    ul_break={'after': 4096, 'requeue_delay': 0.3, 'then': then, 'then_delay': then_delay}))
     # duplicated PeerTransferRequest handled back-to-back
     for op in OPS:
         for k in range(2, 9):
@@ -446,17 +452,23 @@ def _run(world: World, plan):
     async def break_watch(xp, path, brk):
         dl = xp.downloads[path]
         t_end = loop.time() + 120.0
+        # as soon as the file connection is there the control connections go away and the reachability changes, so
+        # that whatever the client wants to tell the peer after the break needs a new connection
+        while not dl.tickets:
+            if loop.time() > t_end:
+                return
+            await asyncio.sleep(0.001)
+        for link in list(xp.p_links):
+            if link.is_open():
+                link.close()
+        if brk.get('then'):
+            reach_now[xp.name] = {'direct': brk['then'], 'delay': brk.get('then_delay')}
         while not any(how == 'peer_abort' for (_, how) in dl.ended):
             if loop.time() > t_end:
                 return
             await asyncio.sleep(0.01)
         world.net.fired['upload_file_conn_reset'] += 1
         xp.dl_beh[path] = {}
-        for link in list(xp.p_links):
-            if link.is_open():
-                link.close()
-        if brk.get('then'):
-            reach_now[xp.name] = {'direct': brk['then'], 'delay': brk.get('then_delay')}
         await asyncio.sleep(brk.get('requeue_delay', 0.3))
         if path not in xp.muted:
             world.net.fired['peer_requeue_after_break'] += 1
